@@ -55,6 +55,23 @@ Theorem C03_disjunction_lookup_complete_and_precise_partial : forall t fs fuel f
 Proof. intros t fs fuel finds out c Ht NE W H. exact (or_lookup_exact t Ht fs fuel finds out c NE W H). Qed.
 Print Assumptions C03_disjunction_lookup_complete_and_precise_partial.
 
+(* ---- the fast path of a lone IN filter on a one-column index (inValsToMySQLRangeColl) ---- *)
+(* when it returns ranges they contain exactly the values equal to some key ... *)
+Theorem C03_in_fast_path_exact : forall ls rs v, in_i32 v -> in_fast ls = Some rs ->
+  ucontains rs [v] = existsb (fun l => op_true (OEq l) v) ls.
+Proof. exact in_fast_exact. Qed.
+Print Assumptions C03_in_fast_path_exact.
+(* ... and it returns nil exactly when no key can match any column value (all keys non-integral or out of range).  nil is
+   not the empty range: the engine reads it as "no restriction" on a primary key (all rows come back) and dereferences it
+   on a secondary key (panic) — the known finding.  So the lookup is complete but NOT precise for such lists: *)
+Theorem C03_in_fast_path_nil_iff_unsatisfiable : forall ls,
+  in_fast ls = None <-> forall v, in_i32 v -> existsb (fun l => op_true (OEq l) v) ls = false.
+Proof. exact in_fast_nil_iff. Qed.
+Print Assumptions C03_in_fast_path_nil_iff_unsatisfiable.
+Theorem C03_in_fast_path_precision_refuted : exists ls, in_fast ls = None /\ ls <> [].
+Proof. exists [(15, 1%nat)]. split; [reflexivity|discriminate]. Qed.
+Print Assumptions C03_in_fast_path_precision_refuted.
+
 Example C03_multi_nonvacuous :
   mresult (mrun 2 [BOp 0 (ONe (2, 0%nat)); BIn 1 [(1, 0%nat); (15, 1%nat); (3, 0%nat)]]) =
     [[gt_rce 2; closed_rce 1 1]; [lt_rce 2; closed_rce 3 3]; [gt_rce 2; closed_rce 3 3]; [lt_rce 2; closed_rce 1 1]] /\
